@@ -4,7 +4,7 @@
 From Coq Require Import NArith ZArith List Bool.
 Import ListNotations.
 Require Import UV.C07.Model UV.C07.Check UV.C07.Proofs UV.C07.Replay UV.C07.RecordReplay.
-Require UV.C07.RecordProof UV.C07.RecordProofCyg UV.C07.RecordProofB UV.C07.RecordProofT UV.C07.RecordProofD UV.C07.Size UV.C07.Origin UV.C07.Range UV.C07.Multi UV.C07.MultiReplay UV.C07.Switch.
+Require UV.C07.RecordProof UV.C07.RecordProofCyg UV.C07.RecordProofB UV.C07.RecordProofT UV.C07.RecordProofD UV.C07.Size UV.C07.Origin UV.C07.Fixup UV.C07.Range UV.C07.Multi UV.C07.MultiReplay UV.C07.Switch.
 Local Open Scope Z_scope.
 
 (* get_task_ustack's look-ahead list (time filter -t / time=, caller filter -C, `trace`) hands the
@@ -157,8 +157,8 @@ Proof. exact raw_dump_ignores_time_filter. Qed.
 Print Assumptions C07_raw_dump_time_filter_refuted.
 
 (* record time = replay time, UNBOUNDED, for the options -F / -N / -D / -t on the -pg shape: for every
-   forest whose calls take time, lie inside their caller's interval and do not run exactly the threshold
-   (nesting <= 1024) libmcount (lazy ENTRY flush, time filter on exit) writes exactly the recording of the
+   forest whose calls take time and lie inside their caller's interval (a call may run exactly the threshold
+   since /repo 075e798; nesting <= 1024) libmcount (lazy ENTRY flush, time filter on exit) writes exactly the recording of the
    selected forest, and replaying that without options shows the same calls, display depths and times as
    replaying the full recording with the options. *)
 Theorem C07_record_writes_selected_forest : forall c f,
@@ -246,6 +246,24 @@ Theorem C07_elapsed_origin_legacy_refuted :
 Proof. exact Origin.origin_legacy. Qed.
 Print Assumptions C07_elapsed_origin_legacy_refuted.
 
+(* the internal fixup table of fstack_entry (exec*, setjmp, longjmp, fork, vfork, daemon ...; looked up into the same
+   slot as the user's table, which overwrites it when it has an entry) is trigger-only: what the options select does
+   not depend on which functions are in that table.  Had its entries been opt-in filters, a call to fork outside the
+   -F scope would be selected and -D would start again below it (witness). *)
+Theorem C07_fixup_table_irrelevant : forall is_fixup has_user c forest, Fixup.user_table has_user c ->
+  select (cfg_seen fixup_entry is_fixup has_user c) forest = select c forest.
+Proof. exact Fixup.fixup_table_irrelevant. Qed.
+Print Assumptions C07_fixup_table_irrelevant.
+
+Theorem C07_fixup_as_filter_refuted :
+  map ob_n (select Fixup.c_fx Fixup.f_fx) = [(false, 3%N); (false, 1%N); (true, 1%N); (true, 3%N)]
+  /\ map ob_n (select (cfg_seen Fixup.as_filter Fixup.is_fork Fixup.user_fx Fixup.c_fx) Fixup.f_fx)
+     = [(false, 2%N); (true, 2%N); (false, 3%N); (false, 1%N); (false, 2%N); (false, 4%N); (true, 4%N); (true, 2%N);
+        (true, 1%N); (true, 3%N)]
+  /\ Fixup.user_table Fixup.user_fx Fixup.c_fx.
+Proof. exact Fixup.fixup_as_filter. Qed.
+Print Assumptions C07_fixup_as_filter_refuted.
+
 (* -Z SIZE / -T f@size=N (analysis time only; tied to the commands at the level of this documented semantics,
    the fstack model has no symbol sizes): -Z alone shows exactly what -H on every smaller function shows - for
    which the theorems above say what the commands do - and the tree view used by the checker (small functions
@@ -275,7 +293,7 @@ Print Assumptions C07_record_equals_replay_depth_trigger.
 (* the shared options MIXED (time= / -C / trace together with -F/-N/-D inside the class rr_class_of) and the
    cygprof shape for time= / -C / trace: exhaustive agreement on a bounded
    domain inside the class rr_class_of
-   (no call runs exactly a threshold or zero time, no depth= / trace_on / trace_off, time= never lowers the
+   (no call runs zero time, no depth= / trace_on / trace_off, time= never lowers the
    threshold, -C / trace / time= only when nothing is hidden by -F/-N/-D): 21060 + 8900 compared pairs,
    both instrumentation shapes. *)
 Theorem C07_record_equals_replay_bounded :
